@@ -220,7 +220,7 @@ def run(tier, seed, log):
     blobs = states(ids, W, 1200 if tier == "quick" else 100000, log)
     # three members with distinct ids, numbered against the order of creation: siblings whose list order is
     # not the order of their ids
-    blobs += states([5, -1, 3], 1, 1500 if tier == "quick" else 100000, log)[::3 if tier == "quick" else 1]
+    blobs += states([5000, -1, 3], 1, 1500 if tier == "quick" else 100000, log)[::3 if tier == "quick" else 1]
     if tier == "thorough":
         blobs += states([0, 2, 3, 0], 2, 4000, log)[::3]
     log("copy: %d reachable states of the real objects (%.0fs)" % (len(blobs), time.time() - t0))
